@@ -6,6 +6,7 @@ cd "$(dirname "$0")"
 export GOFLAGS=-mod=mod GOPROXY=off GOSUMDB=off GOTOOLCHAIN=local CGO_ENABLED=0
 export GOCACHE="${GOCACHE:-$HOME/.cache/go-build}"
 id="$1"; tier="${2:-${VERIF_TIER:-quick}}"
+if [ "$id" = C19 ]; then exec ./run19.sh "$tier"; fi
 mkdir -p bin evidence replays
 if ! go build -o bin/vcheck ./cmd/vcheck 2>bin/build.log; then
   echo "SELF-CHECK property=$id build of the checker against /repo failed:"; cat bin/build.log
